@@ -1,8 +1,9 @@
 SCOPE_TB = [
     "correspondence run (real decl analyzer + reference index + SemanticModel::find_decl(NoTrace) vs the Lean model "
     "Scope.implementation through vdriver) for the tie; the renderer AST -> Lua text in harness/vh-scope/src/ast.rs",
-    "model simplification checked by the correspondence run only: find_scope(position) is the innermost open scope for "
-    "every position queried during the walk",
+    "the model of the walk keeps only the open scopes; that the lookup starts at find_scope(position) is proved on explicit "
+    "scope ranges (scope_tree_well_nested, find_scope_path, find_scope_is_innermost_open_scope, "
+    "in_body_block_iff_next_is_block) and additionally evaluated on every lookup of every generated program (scope.findscope)",
 ]
 
 PROPS = {
@@ -10,7 +11,8 @@ PROPS = {
         "harness": "vh-scope",
         "level_text": "Kernel-checked theorem find_eq_lua: for every program of the modelled Lua fragment (locals, "
                       "multi-assignment, local function, function statement, closures with parameters, numeric/generic "
-                      "for, while, repeat-until, do, if, calls) the resolution recorded by the Lean model of the decl "
+                      "for, while, repeat-until, do, if, calls, local with attribute, method / field function statements with implicit "
+                      "self, vararg) the resolution recorded by the Lean model of the decl "
                       "analyzer's scope tree + during-walk find_decl equals the reference environment-passing resolver "
                       "LuaScope at every name use. The model is compared with the real analyzer on an exhaustive family "
                       "of small programs + seeded random programs every run; independently LuaScope (the spec) is compared "
@@ -18,7 +20,9 @@ PROPS = {
         "level_note": "Trusted: Lean kernel, harness/renderer, the correspondence run as the tie (differential, not a proof "
                       "about the Rust). Modelled: DeclAnalyzer scope creation/decl insertion (decl/mod.rs, stats.rs, exprs.rs), "
                       "LuaDeclarationTree::{find_local_decl, visit_visible_decls, search_scope_children, visit_child_scope}. "
-                      "Not modelled: methods/self, goto labels, table fields, _G/_ENV indexing, doc tags, cross-file globals.",
+                      "MethodStat scopes are modelled as FuncStat (identical treatment in decl_tree.rs). Not modelled: goto labels, "
+                      "table fields, _G/_ENV indexing, doc tags, cross-file globals; SemanticModel::find_decl is not compared on `self` "
+                      "(answers the method's receiver by design) and `...` tokens.",
         "trusted_base": SCOPE_TB,
         "assumptions": ["programs are syntactically valid and built from the modelled statement/expression forms",
                         "observation = the raw during-walk resolution (reference index / find_decl at NoTrace level)"],
